@@ -11,12 +11,19 @@ check(
     "PTTL at a held clock) before and after, get_data() restricted to unexpired keys, and a twin executor that never ran the command, including a probe for expiry "
     "entries left behind on absent keys. A second, enumerated sub-check (big_values, 116 cases) holds one 1 MiB..130 MiB element (sizes aimed at powers of two) as string / list element / "
     "set member / hash value and runs every data-returning write and large-reply read directly and through one-call redis.call/pcall scripts, plus 64 MiB+ arguments and the 512 MiB "
-    "limit of APPEND/SETRANGE/SETBIT: it looks for resource-limit failures that strike between a command's effect and its reply. Silence means no such pair among the generated ones (150 000 quick / 6 M thorough), not that none exists. One root cause "
+    "limit of APPEND/SETRANGE/SETBIT: it looks for resource-limit failures that strike between a command's effect and its reply. Two further generated sub-checks state the same oracle through the production entry points "
+    "above the bare executor, observing the keyspace through that same entry point (KEYS * as a multiset, DBSIZE, per key TYPE / full value / PTTL, clock held): sharded_entry drives ShardedActorState::execute with a generated "
+    "shard count (1..16) and key placement (so the keys of two-key commands live on the same or on different shards); replicated_wal drives ReplicatedShardedState::execute with no WAL / FsyncPolicy Always / EverySecond / No over a "
+    "WAL store whose create/append/fsync calls fail at generated call indices, from a generated call on, or exactly around the command under test, with the delta sink absent / live / disconnected. They look for glue that splits a command and "
+    "half-applies it, or that turns a side-channel fault into an error reply after the effect. Silence means no such pair among the generated ones (fail_or_ro 150 000 quick / 6 M thorough; sharded_entry 6 000 / 400 000; replicated_wal 4 000 / 300 000; "
+    "quick sizes before the work factor), not that none exists. One root cause "
     "was found and is fixed in the tree: RPOPLPUSH/LMOVE popped the source before checking the destination's type (KF-C17-01, fixed).",
     "the read commands used for the snapshot (KEYS, TYPE, GET, LRANGE, SMEMBERS, HGETALL, ZRANGE WITHSCORES, PTTL) report the state faithfully (C01 validates them); "
     "keys already expired at the held clock are invisible, so their lazy removal is not a change; a script that itself changed the keyspace before a later call failed "
     "is not a violation (no rollback in Redis) and abstains; commands rejected by the parser never reach the executor; an executor panic is not an error reply "
-    "(left to C01); MULTI is followed by DISCARD before the snapshot; replies 'QUEUED' and EXEC's array are outside the property",
-    "property-based testing (proptest, shrinking to replay files), state-aimed generators, differential against a twin executor",
+    "(left to C01; in the entry-point tiers a dead shard actor abstains likewise); MULTI is followed by DISCARD before the snapshot; replies 'QUEUED' and EXEC's array are outside the property; "
+    "in the entry-point tiers nothing is asserted about replies or about where a successful two-key command puts its result (KF-C03-02 is C03's subject), and hidden expiry state is not probed there (no twin); "
+    "the connection handler (MULTI/EXEC queueing, ACL) is not an entry point of this check; WAL faults are injected at the WalStore trait (create/append/fsync results), real-time effects (the 5 s ack timeout, a full actor channel) are not reachable",
+    "property-based testing (proptest, shrinking to replay files), state-aimed generators, differential against a twin executor, generated configurations and injected WAL-store faults at the production entry points",
     "DESIGN.md §3 C17",
 )
